@@ -330,7 +330,7 @@ def _verify(qual, repo, ctx, bound, second_solver, fast, case):
                     # implicit/explicit `return None` where the contract declares a typed result
                     res = wrap(fresh("none_result", sort_of(C.result)), C.result.rstrip("?") + "?", TRUE)
                 env["result"] = res
-                pst = State(env, t.heap, t.pc, {"old_heap": entry_heap, "old_env": entry_env, "bound": st.meta.get("bound")})
+                pst = State(env, t.heap, t.pc, {"old_heap": entry_heap, "old_env": entry_env, "bound": st.meta.get("bound"), "callres": t.meta.get("callres", {})})
                 for nm, e in C.ensures:
                     for ci, cj in enumerate(conjuncts(e)):
                         nm2 = nm if len(conjuncts(e)) == 1 else f"{nm}.{ci}"
